@@ -2,16 +2,30 @@
 """Regression test of the machinery: apply every kept seeded change (seeded/<id>/patch.diff) to /repo, run the quick
 checks that are recorded as catching it, undo the change, and record the exit codes in seeded/regression.json.
 A seed counts as detected when at least one of its checks exits 1 (VIOLATION reproduced natively).
-usage: seedregress.py [<seed-id> ...]      (never run while another check is running: /repo is patched temporarily)"""
+usage: seedregress.py [<seed-id> ...]
+The change is applied to a scratch worktree of /repo (under /tmp, removed at the end) and the checks run with VERIF_REPO,
+VERIF_WORK, VERIF_EVID and VERIF_REPLAYS pointing into the scratch area, so /repo and /verif/evidence are not touched."""
 import json, os, subprocess, sys, time
 V = os.path.dirname(os.path.dirname(os.path.abspath(__file__)))
-REPO = os.environ.get("VERIF_REPO", "/repo")
+SRC_REPO = os.environ.get("VERIF_REPO", "/repo")
+SCR = "/tmp/verif-seedregress"
+REPO = SCR + "/repo"
 
 
 def main():
     ids = sys.argv[1:] or sorted(d for d in os.listdir(f"{V}/seeded") if os.path.exists(f"{V}/seeded/{d}/patch.diff"))
-    if subprocess.run(["git", "-C", REPO, "status", "--porcelain"], capture_output=True, text=True).stdout.strip():
-        print("refusing: /repo has uncommitted changes"); return 2
+    subprocess.run(["git", "-C", SRC_REPO, "worktree", "remove", "--force", REPO], capture_output=True)
+    os.makedirs(SCR, exist_ok=True)
+    subprocess.run(["git", "-C", SRC_REPO, "worktree", "add", "--detach", REPO, "HEAD"], check=True, capture_output=True)
+    env = dict(os.environ, VERIF_REPO=REPO, VERIF_WORK=SCR + "/work", VERIF_EVID=SCR + "/evidence", VERIF_REPLAYS=SCR + "/replays")
+    try:
+        return run(ids, env)
+    finally:
+        subprocess.run(["git", "-C", SRC_REPO, "worktree", "remove", "--force", REPO], capture_output=True)
+        if not os.environ.get("SEEDREGRESS_KEEP"): subprocess.run(["rm", "-rf", SCR])
+
+
+def run(ids, env):
     out = {}
     path = f"{V}/seeded/regression.json"
     if os.path.exists(path) and sys.argv[1:]: out = json.load(open(path))
@@ -26,9 +40,10 @@ def main():
         try:
             for p in props[:2]:
                 t = time.time()
-                pr = subprocess.run(["./check", p, "--tier", "quick"], cwd=V, capture_output=True, text=True, timeout=7200)
+                pr = subprocess.run(["./check", p, "--tier", "quick"], cwd=V, capture_output=True, text=True, timeout=7200, env=env)
                 first = next((l for l in pr.stdout.split("\n") if l.startswith(("VIOLATION", "INCONCLUSIVE"))), "")
                 res[p] = {"exit": pr.returncode, "seconds": round(time.time() - t), "first": first[:300]}
+                if pr.returncode not in (0, 1): res[p]["stderr_tail"] = pr.stderr[-1500:]
                 if pr.returncode == 1: break
         finally:
             subprocess.run(["git", "-C", REPO, "checkout", "--", "."], check=True)
